@@ -319,6 +319,13 @@ def make_counterfactual_graph(
         directed=pw_graph.directed.edges(),
         undirected=pw_graph.undirected.edges(),
     )
+    # A variable intervened on in its own world is fixed by that intervention (axiom of effectiveness),
+    # so its event is either a tautology, which can be dropped, or impossible.
+    for variable, value in event.items():
+        if not is_not_self_intervened(variable):
+            if value_of_self_intervention(variable) != value:
+                return cf_graph, None
+            del new_event[variable]
     for node in graph.topological_sort():
         for world in worlds:
             node_at_interventions = node @ world
